@@ -10,7 +10,6 @@ import (
 	sdk "github.com/cosmos/cosmos-sdk/types"
 	"pgregory.net/rapid"
 
-
 	"verifharness/evid"
 )
 
